@@ -666,3 +666,21 @@ Section SkewPartial.
       intros si sj Hi Hj Hu. apply (Hcond si sj Hi Hj). apply H; assumption.
   Qed.
 End SkewPartial.
+
+(** * F-C04c: BlockSmoothConvexFunction compares the triplets with [==] *)
+Definition block_s (uid fe : nat) : sample :=
+  mkSample [(0%nat, 1%Q)] [(1%nat, 1%Q)] [(KF fe, 1%Q)] None uid 10 11 [[(1%nat, 1%Q)]].
+Definition block_witness : fstate :=
+  mkF "Function_0" (fun _ => 0%Q) (fun _ => false) [block_s 0 0; block_s 1 1] [] [] None 2 2 12 1 (fun _ => 1%Q).
+
+(** two distinct recorded samples (x, g, f1), (x, g, f2) holding the same Point objects x and g: no
+    condition at all is generated between them (every real member has f1 = f2) *)
+Theorem block_same_xg_refuted :
+  exists st s1 s2, f_points st = [s1; s2] /\ s_uid s1 <> s_uid s2 /\ s_f s1 <> s_f s2 /\
+                   f_nblocks st = 1%nat /\
+                   g_cons (run_plan plan_BlockSmoothConvexFunction st) = [].
+Proof.
+  exists block_witness, (block_s 0 0), (block_s 1 1).
+  split; [reflexivity|]. split; [discriminate|]. split; [discriminate|]. split; [reflexivity|].
+  vm_compute. reflexivity.
+Qed.
